@@ -4,7 +4,7 @@ import copy
 
 from .. import ordtype as O
 from ..loader import AnalysisError, norm_stmt
-from ..small import FoldError, fold
+from ..small import FoldError, cond_defaults, expanded_keywords, fold
 from .C16 import signed_factors, terms
 
 TA = "transform/array.py"
@@ -151,14 +151,17 @@ def wrapper_siblings(ctx, rule="R19.2"):
         if len(calls) != 1:
             ctx.violation(rule, site, "wrapper does not go through apply_function exactly once", "apply-function")
             continue
-        kw = {k.arg: k.value for k in calls[0].keywords}
+        kw, unexpanded = expanded_keywords(fn, calls[0])
+        if unexpanded or calls[0].args:
+            ctx.undecided(rule, site, "apply_function is called with arguments this rule cannot bind by name: %s" % (unexpanded or "positional"))
+            continue
         ok = ast.unparse(kw.get("function")) == target and all(ast.unparse(kw.get(a)) == a for a in ("field", "store", "process", "keep_mean")) and ast.unparse(kw.get("fld")) == "fld"
         ctx.check(ok, rule, site, "goes through apply_function(function=%s) forwarding field/store/process/keep_mean unchanged" % target, "forward")
         # keyword dict handed to the array function
-        kwd = [n for n in ast.walk(fn) if isinstance(n, ast.Assign) and ast.unparse(n.targets[0]) == "kw" and isinstance(n.value, ast.Call) and getattr(n.value.func, "id", "") == "dict"]
+        own = {a.arg for a in prog.func(TF, "apply_function").args.args}
         tparams = [a.arg for a in prog.func(TA, target).args.args]
-        if kwd:
-            d = {k.arg: ast.unparse(k.value) for k in kwd[0].value.keywords}
+        d = {k: ast.unparse(v) for k, v in kw.items() if k not in own}
+        if d:
             ctx.check(set(d) <= set(tparams[1:]), rule, site, "every keyword handed to %s is one of its parameters: %s" % (target, sorted(d)), "kw-names")
             if "mean" in d:
                 ctx.check(d["mean"] == MEAN_EXPR, rule, site, "mean = 0 if the mean was removed by processing, else the field's mean: %s" % d["mean"], "mean")
@@ -207,9 +210,12 @@ def binary_and_formulas(ctx, rule="R19.3"):
     prog = ctx.prog
     b = prog.func(TF, "binary")
     a = {ast.unparse(s.targets[0]): ast.unparse(s.value) for s in b.body if isinstance(s, ast.Assign)}
-    ok = (a.get("mean") == MEAN_EXPR and a.get("divide") == "mean if divide is None else divide"
-          and a.get("upper") == "mean + np.sqrt(fld.model.sill) if upper is None else upper" and a.get("lower") == "mean - np.sqrt(fld.model.sill) if lower is None else lower"
-          and a.get("kw") == "dict(values=[lower, upper], thresholds=[divide])")
+    bc = [n for n in ast.walk(b) if isinstance(n, ast.Call) and getattr(n.func, "id", "") == "apply_function"]
+    bkw = {k: ast.unparse(v) for k, v in expanded_keywords(b, bc[0])[0].items()} if len(bc) == 1 else {}
+    dfl = {v: [(t, ast.unparse(x)) for t, x in cond_defaults(b.body, v)] for v in ("divide", "upper", "lower")}
+    ok = (a.get("mean") == MEAN_EXPR and dfl["divide"] == [("divide is None", "mean")]
+          and dfl["upper"] == [("upper is None", "mean + np.sqrt(fld.model.sill)")] and dfl["lower"] == [("lower is None", "mean - np.sqrt(fld.model.sill)")]
+          and bkw.get("values") == "[lower, upper]" and bkw.get("thresholds") == "[divide]")
     ctx.check(ok, rule, TF + "::binary", "binary = discrete with values [lower, upper] and the single threshold `divide` (defaults mean -/+ sqrt(sill), mean)", "binary")
     # compositions and default bounds of the bounded targets
     for name, inner, const in (("array_to_arcsin", "_uniform_to_arcsin", 2.0), ("array_to_uquad", "_uniform_to_uquad", 5.0 / 3.0)):
